@@ -18,6 +18,11 @@ public:
   void AddUID(const EntityUID& newUID);
   void FreeUID(const EntityUID& returnUID) noexcept;
   [[nodiscard]] bool IsTaken(const EntityUID& uid) const;
+
+#ifdef CCL_VERIF
+  //! Verification hook: after this call NewUID draws from a seeded engine instead of std::random_device
+  static void VerifSeed(uint64_t seed);
+#endif
 };
 
 } // namespace ccl::tools
